@@ -162,6 +162,7 @@ struct Shared {
 Shared G;
 
 std::string dumpRequest(const Http::Request& req);
+std::string selfDirOf();
 
 // lifecycle log: (client port, event) in the order the handler was told; C = connection, I = input, D = disconnection
 struct LifeLog { std::mutex m; std::vector<std::pair<int, char>> ev; } LIFE;
@@ -278,6 +279,21 @@ public:
                     std::thread([st] { for (int i = 0; i < 200 && *st == "pending"; ++i) std::this_thread::sleep_for(std::chrono::milliseconds(5));
                                        std::lock_guard<std::mutex> g(G.m); G.sendResult = *st; G.cv.notify_all(); }).detach();
                 }
+            } else if (sc.mode == "file") {
+                // Http::serveFile: the body comes from a file (sendfile); status is always 200
+                const std::string body = sc.chunks.empty() ? std::string() : sc.chunks[0];
+                std::string path = selfDirOf() + "/sf-" + std::to_string(getpid()) + "-" + std::to_string(reinterpret_cast<uintptr_t>(&sc) & 0xffff) + ".bin";
+                { FILE* f = fopen(path.c_str(), "wb"); if (f) { fwrite(body.data(), 1, body.size(), f); fclose(f); } }
+                auto st = std::make_shared<std::string>("pending");
+                auto p = Http::serveFile(response, path);
+                p.then([st](ssize_t n) { *st = "ok:" + std::to_string(n); },
+                       [st](std::exception_ptr e) { try { std::rethrow_exception(e); } catch (const std::exception& x) { *st = std::string("rej:") + x.what(); } catch (...) { *st = "rej:?"; } });
+                result = *st; size = static_cast<long>(response.getResponseSize());
+                if (result == "pending") {
+                    std::thread([st, path] { for (int i = 0; i < 200 && *st == "pending"; ++i) std::this_thread::sleep_for(std::chrono::milliseconds(5));
+                                             ::unlink(path.c_str());
+                                             std::lock_guard<std::mutex> g(G.m); G.sendResult = *st; G.cv.notify_all(); }).detach();
+                } else ::unlink(path.c_str());
             } else {
                 auto stream = response.stream(static_cast<Http::Code>(sc.code));
                 for (size_t i = 0; i < sc.chunks.size(); ++i) {
@@ -730,6 +746,8 @@ std::string opLife(const std::vector<std::string>& w)
     return "conns=" + out + " fds=" + std::to_string(after - base) + " serve=" + std::to_string(ok);
 }
 
+std::string selfDir();
+std::string selfDirOf() { return selfDir(); }
 std::string selfDir()
 {
     char buf[4096]; ssize_t n = ::readlink("/proc/self/exe", buf, sizeof buf - 1); if (n <= 0) return ".";
